@@ -1165,10 +1165,14 @@ impl<'a> LoopPass<'a> {
             Consumer::Find(c) => {
                 let r_id = syn::Ident::new(&format!("__found{}", k), Span::call_site());
                 let e = inline(self, &c, quote!(&#cur))?;
+                let decl: TokenStream = match &elem_ty {
+                    Some(t) => quote!(let mut #r_id: Option<#t> = None;),
+                    None => quote!(let mut #r_id = None;),
+                };
                 syn::parse_quote!({
                     let #s_id = #seq_init;
                     let mut #i_id: usize = 0;
-                    let mut #r_id = None;
+                    #decl
                     while #i_id < #s_id.len() && #r_id.is_none() {
                         #marker
                         #(#body)*
@@ -1503,6 +1507,14 @@ impl<'a> VisitMut for LoopPass<'a> {
             syn::Expr::Closure(c) => {
                 let k = self.closures;
                 self.closures += 1;
+                // Verus rejects `_` closure parameters: name them (they are unused by construction)
+                for (pi, p) in c.inputs.iter_mut().enumerate() {
+                    if let syn::Pat::Wild(_) = p {
+                        let id = syn::Ident::new(&format!("__unused{}_{}", k, pi), Span::call_site());
+                        *p = syn::parse_quote!(#id);
+                        bump(self.counts, "R19.wild_closure_param");
+                    }
+                }
                 self.closure_params.push(c.inputs.to_token_stream().to_string());
                 let body = (*c.body).clone();
                 let mut blk: syn::Block = match body {
